@@ -7,6 +7,8 @@ import (
 	"bytes"
 	"encoding/json"
 	"fmt"
+	"strconv"
+	"strings"
 	"sync"
 
 	"verif/harness/gen"
@@ -319,11 +321,22 @@ func buildJPEG(c Case, variant int) Built {
 			hasICC = true
 			segs = append(segs, gen.ICCSeg(byte(a.Seq), byte(a.Total), JPEGPayload(a.Pid, variant)))
 		case "OTHER":
-			switch a.KindStr() {
-			case "dqt":
+			switch k := a.KindStr(); {
+			case k == "dqt":
 				segs = append(segs, gen.DQT(0), gen.DQT(1))
-			case "dht":
+			case k == "dht":
 				segs = append(segs, gen.DHT(0, 0), gen.DHT(1, 0))
+			case k == "com":
+				segs = append(segs, gen.COM(gen.Payload(40+variant, 3, true)))
+			case k == "dri":
+				segs = append(segs, gen.DRI(uint16(4+variant)))
+			case k == "app0":
+				segs = append(segs, gen.JFIF())
+			case k == "app14": // Adobe marker as image/jpeg expects it
+				segs = append(segs, gen.APP(14, []byte{'A', 'd', 'o', 'b', 'e', 0, 100, 0, 0, 0, 0, 1}))
+			case strings.HasPrefix(k, "app") && k != "app1":
+				n, _ := strconv.Atoi(k[3:])
+				segs = append(segs, gen.APP(n, gen.Payload(24+variant, uint32(n), true)))
 			default:
 				switch variant % 4 {
 				case 0:
